@@ -48,8 +48,14 @@ def _written_classes(ctx: Ctx) -> Dict[str, List[str]]:
         for w in writes_of(f):
             if lazy_atomic(w)[0]:
                 continue
-            if lazy_builder and w.what == 'store-attr' and isinstance(w.recv, ast.Name) and w.recv.id == f.self_name():
-                continue
+            if lazy_builder:
+                # writes of a function that only runs as the value of a lazy `if x is None: x = build()` happen once, while
+                # the cache is being built; whether they are atomic is C10's business (R-SHARED-EFFECTS), not a fork issue
+                root = w.recv
+                while isinstance(root, (ast.Attribute, ast.Subscript)):
+                    root = root.value
+                if isinstance(root, ast.Name) and root.id == f.self_name():
+                    continue
             for t in ty.expr(f, w.recv):
                 if t.startswith('C:'):
                     out.setdefault(t[2:], []).append('%s %s' % (f.loc(w.stmt), norm(w.stmt)[:50]))
@@ -418,6 +424,7 @@ def run_shallow(ctx: Ctx) -> RuleResult:
     for f, c in sites:
         st = enclosing_stmt(c)
         site = '%s %s' % (f.loc(c), f.qual)
+        props = ['C14'] if f.module.name == 'lark.parser_frontends' else ['C13']
         if not (isinstance(st, ast.Assign) and isinstance(st.targets[0], ast.Name)):
             res.ob(site, 'shallow fork bound to a local', False)
             res.finding(f, st, 'a shallow fork is not kept in a local: cannot follow what is fed to it', construct='shallow-unbound')
@@ -432,9 +439,9 @@ def run_shallow(ctx: Ctx) -> RuleResult:
         escapes = [n for n in f.body_nodes() if isinstance(n, (ast.Return, ast.Yield)) and n.value is not None
                    and var in {x.id for x in ast.walk(n.value) if isinstance(x, ast.Name)}]
         ok = not escapes
-        res.ob(site, 'the shallow fork `%s` does not escape the function' % var, ok)
+        res.ob(site, 'the shallow fork `%s` does not escape the function' % var, ok, props=props)
         if not ok:
-            res.finding(f, escapes[0], 'a shallow fork is returned / yielded: callers may feed it with callbacks on', construct='shallow-escape')
+            res.finding(f, escapes[0], 'a shallow fork is returned / yielded: callers may feed it with callbacks on', construct='shallow-escape', props=props)
         empties = []
         for n in f.body_nodes():
             if isinstance(n, ast.Assign) and len(n.targets) == 1 and isinstance(n.targets[0], ast.Attribute) \
@@ -460,11 +467,11 @@ def run_shallow(ctx: Ctx) -> RuleResult:
                             and (norm(n.targets[0].value) in (var, var + '.parser_state')) and norm(n.value) == recv.id]
                     if any(g.dominates(g.node_of(i), fid) for i in inst):
                         ok, how = True, 'private conf %s with empty callbacks installed before feeding' % recv.id
-            res.ob(f.loc(fd), 'shallow fork %s fed with callbacks off (%s)' % (var, how), ok)
+            res.ob(f.loc(fd), 'shallow fork %s fed with callbacks off (%s)' % (var, how), ok, props=props)
             if not ok:
                 res.finding(f, enclosing_stmt(fd), 'a shallow fork is fed while tree-building callbacks may run: the in-place child-list '
                             'reuse of the LALR tree builder then modifies trees shared with the sibling fork',
-                            construct='shallow-feed:' + norm(fd)[:60])
+                            construct='shallow-feed:' + norm(fd)[:60], props=props)
         if not feeds:
             res.ob(site, 'shallow fork `%s` is never fed' % var, True)
     # the driver really skips callbacks when the table is empty
